@@ -131,17 +131,18 @@ CLAIMED['C13'] = (
     'Lean 4 proof (OR-of-XORs stage, frame theorem) + exact correspondence + exhaustive evaluation oracle')
 CLAIMED['C03'] = (
     'DESIGN.md 5/C03',
-    'Theorems for every circuit satisfying the C02 invariant: RemoveRedundantGates (both modes), MergeUnaryOperators (parity maps over '
-    'NOT/LNOT/RNOT and IFF/LIFF/RIFF chains) and MergeDuplicateGates (signatures; symmetric types proved order-independent from the '
-    'regenerated is_symmetric table) each return a circuit satisfying the invariant again, with the inputs in order (dropped only when '
-    'requested), the same number of outputs, on which every valuation of the argument is a valuation of the result giving every output '
-    'position the same value — i.e. the identical truth table (uniqueness of valuations); RRG never returns more gates. The same for every '
-    'composition of these passes: Transformer.transform, t1 | t2, apply_transformers on a list, cleanup (light). All four passes and the '
-    'pipeline machinery are modelled one-to-one and compared with the code field by field on every run; the search compares truth '
-    'table, interface and size of argument and result of the real passes and pipelines and that the argument is left untouched.',
-    NOTE_COMMON + 'MergeEquivalentGates and cleanup(use_heavy=True): preservation theorem not proved yet (partial; correspondence + oracle). '
-    '"Argument not modified" is correspondence-only.',
-    'Lean 4 proof (DFS reachability invariant, rebuild fold invariants, parity/signature invariants, permutation lemmas) + field-exact correspondence + truth-table oracle')
+    'Theorems for every circuit satisfying the C02 invariant with accepted arities: all four passes — RemoveRedundantGates (both modes), '
+    'MergeUnaryOperators (parity maps over NOT/LNOT/RNOT and IFF/LIFF/RIFF chains), MergeDuplicateGates (signatures; symmetric types '
+    'proved order-independent from the regenerated is_symmetric table) and MergeEquivalentGates (equal rows of get_gates_truth_table '
+    'mean equal functions: row semantics of the nested dict folds + evaluator correctness + completeness of the input enumeration) — '
+    'return a circuit satisfying the invariant again, with the inputs in order (dropped only when requested), the same number of '
+    'outputs, on which every valuation of the argument is a valuation of the result giving every output position the same value, i.e. the '
+    'identical truth table (uniqueness of valuations); RRG never returns more gates. The same for EVERY pipeline: Transformer.transform, '
+    't1 | t2, apply_transformers on any (nested) list, cleanup light and heavy. Passes and pipeline machinery are modelled one-to-one and '
+    'compared with the code field by field on every run; the search compares truth table, interface and size on the real passes and '
+    'pipelines and that the argument is left untouched.',
+    NOTE_COMMON + '"Argument not modified" is correspondence-only. Partial correctness (whenever the pass returns).',
+    'Lean 4 proof (DFS reachability invariant, rebuild fold invariants, parity/signature/truth-table-group invariants, permutation lemmas) + field-exact correspondence + truth-table oracle')
 CLAIMED['C18'] = (
     'DESIGN.md 5/C18',
     'Theorems: RemoveRedundantGates returns exactly the gates reachable from the outputs (DFS exit set = reachability closure), plus all '
